@@ -35,6 +35,8 @@ type startKind struct {
 	nodeID  string
 	privKey string
 	seed    string
+	iatStr  string // bad-iat: a non-numeric iat-mode, if set
+	missing int    // partial-explicit: which of the three identity arguments is left out
 }
 
 func (k startKind) invalid() bool { return k.kind == "bad-iat" || k.kind == "bad-explicit" }
@@ -43,7 +45,17 @@ func (k startKind) args() *pt.Args {
 	a := &pt.Args{}
 	switch k.kind {
 	case "bad-iat":
-		a.Add("iat-mode", fmt.Sprint(k.iat))
+		if k.iatStr != "" {
+			a.Add("iat-mode", k.iatStr)
+		} else {
+			a.Add("iat-mode", fmt.Sprint(k.iat))
+		}
+	case "partial-explicit":
+		for i, kv := range [][2]string{{"node-id", k.nodeID}, {"private-key", k.privKey}, {"drbg-seed", k.seed}} {
+			if i != k.missing {
+				a.Add(kv[0], kv[1])
+			}
+		}
 	case "bad-explicit":
 		a.Add("node-id", k.nodeID)
 		a.Add("private-key", k.privKey)
@@ -64,7 +76,12 @@ func (k startKind) args() *pt.Args {
 func (k startKind) String() string {
 	switch k.kind {
 	case "bad-iat":
+		if k.iatStr != "" {
+			return fmt.Sprintf("start(INVALID iat-mode=%q)", k.iatStr)
+		}
 		return fmt.Sprintf("start(INVALID iat-mode=%d)", k.iat)
+	case "partial-explicit":
+		return fmt.Sprintf("start(INCOMPLETE explicit identity: %s left out)", []string{"node-id", "private-key", "drbg-seed"}[k.missing])
 	case "bad-explicit":
 		return fmt.Sprintf("start(MALFORMED explicit identity: node-id %d hex digits, key %d, seed %d)", len(k.nodeID), len(k.privKey), len(k.seed))
 	case "iat":
@@ -115,8 +132,15 @@ func identOf(sf base.ServerFactory) ident {
 // iat-mode override or malformed explicit identity arguments.
 func drawAnyKind(c *harness.Ctx, label string) startKind {
 	t := c.T
-	switch t.Draw(label+".bad", 5) {
+	switch t.Draw(label+".bad", 6) {
+	case 5:
+		b := make([]byte, 20+32+24)
+		c.Rand.Fill("cfg.explicit", b)
+		return startKind{kind: "partial-explicit", iat: -1, missing: t.Draw(label+".missing", 3), nodeID: hex.EncodeToString(b[:20]), privKey: hex.EncodeToString(b[20:52]), seed: hex.EncodeToString(b[52:])}
 	case 3:
+		if t.Draw(label+".badiatk", 2) == 1 {
+			return startKind{kind: "bad-iat", iatStr: []string{"x", "1x", "1.0", "0x1"}[t.Draw(label+".badiats", 4)]}
+		}
 		return startKind{kind: "bad-iat", iat: []int{3, -1, 7, 100}[t.Draw(label+".badiat", 4)]}
 	case 4:
 		b := make([]byte, 20+32+24)
@@ -176,6 +200,13 @@ func runC18(c *harness.Ctx) {
 			k = drawAnyKind(c, "base")
 		}
 		r := start(c, nextName(), k)
+		if k.kind == "partial-explicit" && r.err != nil && !r.crashed {
+			// an incomplete explicit identity is refused; (were it accepted, it is
+			// judged below like a start without identity arguments)
+			c.Feature("rejected-start-in-history")
+			hist = append(hist, k.kind)
+			continue
+		}
 		if k.invalid() {
 			// a start with bad arguments must be refused and must leave what is persisted alone
 			if r.err == nil && !r.crashed {
@@ -193,7 +224,7 @@ func runC18(c *harness.Ctx) {
 		id := identOf(r.sf)
 		if durable != nil {
 			switch k.kind {
-			case "plain":
+			case "plain", "partial-explicit":
 				if id != *durable {
 					c.Violate("C18/identity-changed-on-restart", "history %v then %v: advertised %v, previously %v", hist, k, id, *durable)
 					return
@@ -242,11 +273,24 @@ func runC18(c *harness.Ctx) {
 	if k.kind == "iat" {
 		acceptable[ident{durable.cert, fmt.Sprint(k.iat)}] = true
 	}
+	reads := len(d.Reads)
+	c.Info["disk_reads"] = append([]string(nil), d.Reads...)
 	faults := []struct {
 		name string
 		err  error
 	}{{"crash", nil}, {"EIO", syscall.EIO}, {"ENOSPC", syscall.ENOSPC}}
-	evals := 0
+	// one fault case: a kill or an error at a mutating step, or an error on the
+	// n-th read of a file that exists (an unreadable state file is not a missing one)
+	type fcase struct {
+		j    int // disk step, or read number if read
+		op   string
+		path string
+		name string
+		err  error
+		ts   int
+		read bool
+	}
+	var cases []fcase
 	for j := 1; j <= len(steps); j++ {
 		torn := []int{0}
 		if steps[j-1].Op == "write" {
@@ -254,20 +298,50 @@ func runC18(c *harness.Ctx) {
 		}
 		for _, fk := range faults {
 			for _, ts := range torn {
+				cases = append(cases, fcase{j: j, op: steps[j-1].Op, path: steps[j-1].Path, name: fk.name, err: fk.err, ts: ts})
+			}
+		}
+	}
+	for r := 1; r <= reads; r++ {
+		for _, fk := range []struct {
+			name string
+			err  error
+		}{{"EIO", syscall.EIO}, {"EACCES", syscall.EACCES}} {
+			cases = append(cases, fcase{j: r, op: "read", path: d.Reads[r-1], name: fk.name, err: fk.err, read: true})
+		}
+	}
+	evals := 0
+	{
+		{
+			for _, fc := range cases {
+				j, ts := fc.j, fc.ts
+				fk := fc
 				d.Restore(snap)
 				d.ResetPlan()
 				d.TornSel = ts
-				if fk.err == nil {
+				switch {
+				case fc.read:
+					d.ReadErrAt, d.ReadErrKind = j, fc.err
+				case fk.err == nil:
 					d.CrashAt = j
-				} else {
+				default:
 					d.ErrAt, d.ErrKind = j, fk.err
 				}
-				caseID := fmt.Sprintf("%v|%v|step %d/%d %s %s|%s|torn %d", hist, k.kind, j, len(steps), steps[j-1].Op, strings.TrimPrefix(steps[j-1].Path, stateDir), fk.name, tornClass(ts))
+				total := len(steps)
+				if fc.read {
+					total = reads
+				}
+				caseID := fmt.Sprintf("%v|%v|step %d/%d %s %s|%s|torn %d", hist, k.kind, j, total, fc.op, strings.TrimPrefix(fc.path, stateDir), fk.name, tornClass(ts))
 				c.Case(caseID)
 				c.S.Log("case", caseID)
+				firedBefore := d.Fired[fk.name+"@read"]
 				r := start(c, nextName(), k)
 				evals++
-				c.S.Count("fault."+fk.name+"@"+steps[j-1].Op, 1)
+				c.S.Count("fault."+fk.name+"@"+fc.op, 1)
+				if fc.read && d.Fired[fk.name+"@read"] == firedBefore {
+					c.Violate("C18/harness", "read fault planned at read %d did not fire", j)
+					return
+				}
 				if fk.err == nil && !r.crashed {
 					c.Violate("C18/harness", "crash planned at step %d did not fire", j)
 					return
@@ -275,13 +349,13 @@ func runC18(c *harness.Ctx) {
 				if r.sf != nil {
 					acceptable[identOf(r.sf)] = acceptable[identOf(r.sf)] // a start that survived an injected error must itself be consistent
 					if !acceptable[identOf(r.sf)] {
-						c.Violate("C18/identity-replaced-under-error", "history %v; %v with %s at disk step %d (%s %s): the start returned identity %v; durable was %v", hist, k, fk.name, j, steps[j-1].Op, steps[j-1].Path, identOf(r.sf), *durable)
+						c.Violate("C18/identity-replaced-under-error", "history %v; %v with %s at disk step/read %d (%s %s): the start returned identity %v; durable was %v", hist, k, fk.name, j, fc.op, fc.path, identOf(r.sf), *durable)
 						return
 					}
 				}
 				// life goes on: further complete starts, each of which must work
 				// and respect what is persisted
-				what := fmt.Sprintf("history %v; %v interrupted by %s at disk step %d of %d (%s %s, torn selector %d)", hist, k, fk.name, j, len(steps), steps[j-1].Op, steps[j-1].Path, ts)
+				what := fmt.Sprintf("history %v; %v interrupted by %s at disk step/read %d of %d (%s %s, torn selector %d)", hist, k, fk.name, j, total, fc.op, fc.path, ts)
 				okSet := map[ident]bool{}
 				for id := range acceptable {
 					okSet[id] = true
@@ -291,6 +365,9 @@ func runC18(c *harness.Ctx) {
 					d.ResetPlan()
 					pr := start(c, nextName(), pk)
 					what += fmt.Sprintf("; then %v", pk)
+					if pk.kind == "partial-explicit" && pr.err != nil && !pr.crashed {
+						continue
+					}
 					if pk.invalid() {
 						if pr.err == nil && !pr.crashed {
 							c.Violate("C18/invalid-arguments-accepted", "%s: accepted", what)
